@@ -148,6 +148,11 @@ the encoder contract with the toy format's one-shot decoder. -/
 theorem toy_encoder_meets_contract (P : Toy.Params) : Nonempty (EncContract (Toy.encoder P) Toy.decode) :=
   ⟨Toy.encContract P⟩
 
+/-- Non-vacuity of the decoder contract: the toy decoder (queue, limited intake, limited output granularity, the
+end-of-input rule of the repaired backends) meets it for every knob setting. -/
+theorem toy_decoder_meets_contract (P : Toy.Params) : Nonempty (DecContract (Toy.decoder P) Toy.decode) :=
+  ⟨Toy.decContract P⟩
+
 /-- the toy format round-trips (so `Toy.decode` is a meaningful reference decoder) -/
 theorem toy_decode_encode (x : Bytes) : Toy.decode (Toy.encode x) = some x := Toy.decode_encode x
 
@@ -156,5 +161,17 @@ example : (match oRun (Toy.encoder ⟨0, 0, 0⟩) 4 1000 (oInit (Toy.encoder ⟨
       [OOp.append [65, 66, 67, 68, 69], OOp.flush] with
     | some (.ok st) => Toy.decode st.sink
     | _ => none) = some [65, 66, 67, 68, 69] := by decide
+
+/-- a concrete run of the reader: two members through a 4-byte buffer, one-byte chunks of input, reader takes 3 bytes a time -/
+example : (match iRead (Toy.decoder ⟨0, 0, 0⟩) 4 1000 (iInit (Toy.decoder ⟨0, 0, 0⟩) ⟨Toy.encode [65, 66, 67] ++ Toy.encode [68, 69], [0, 0, 0, 0, 0, 0, 0, 0, 0, 0, 0, 0]⟩)
+      [(4, 3), (4, 3), (4, 3), (4, 3), (4, 3), (4, 3), (4, 3), (4, 3)] [] with
+    | some (.ok (_, acc, eof)) => some (acc, eof)
+    | _ => none) = some ([65, 66, 67, 68, 69], true) := by decide
+
+/-- a concrete truncated stream: the last byte of the second member is missing -/
+example : (match iRead (Toy.decoder ⟨1, 1, 1⟩) 4 1000 (iInit (Toy.decoder ⟨1, 1, 1⟩) ⟨Toy.encode [65, 66, 67] ++ (Toy.encode [68, 69]).take 4, []⟩)
+      [(4, 3), (4, 3), (4, 3), (4, 3), (4, 3), (4, 3), (4, 3), (4, 3)] [] with
+    | some (.error e) => some e
+    | _ => none) = some errCompressor := by decide
 
 end Sqfs.C15
